@@ -16,7 +16,78 @@ def run(ck):
     n = checked.check_rows(ck, w, 'C10.R1', tables.C10_DECODERS)
     ck.floor('C10.R1', 'decoder/validator obligations', n, 15)
     r2_strict(ck, w)
+    r3_accumulators(ck, w)
+    r4_all_coefficients(ck, w)
     eval_nesting(ck, w, 'C10', 'C10.N1')
+
+
+def r3_accumulators(ck, w, rule='C10.R3'):
+    """Sum / Product over references terminate"""
+    import re
+    ck.rule(rule, 'batched variants: an impl of core::iter::Sum<X> / Product<X> for a field or curve type never hands its bare iterator parameter back to '
+                  'Iterator::sum / Iterator::product — with the result type of the impl that call resolves to the same impl again (unconditional recursion, stack '
+                  'overflow on the first use of `iter().sum()`).  The by-reference impls go through an adaptor that changes the item type (copied / cloned / map) '
+                  'or fold explicitly.')
+    n = 0
+    for f in w.all_fns(['curves']):
+        if not re.search(r' as core::iter::traits::accum::(Sum|Product)\b', f['_xid']) or '::tests' in f['_nid']:
+            continue
+        n += 1
+        params = {p_['i'] for p_ in f.get('params', []) if p_.get('k') == 'bind'}
+        bad = [c for c in hirq.calls(f['body']) if (callee(c) or '') in ('core::iter::traits::iterator::Iterator::sum', 'core::iter::traits::iterator::Iterator::product')
+               and peel(c.get('recv', {})).get('k') == 'local' and peel(c['recv']).get('i') in params]
+        ck.record(rule, f'{f["_xid"]}:terminates', not bad, 'does not re-enter itself through Iterator::sum / product',
+                  f'{f["_xid"]} calls Iterator::sum / product directly on its iterator parameter: the call resolves to this very impl, every use recurses until the '
+                  f'stack overflows', hirq.fn_loc(f))
+    ck.floor(rule, 'Sum / Product impls', n, 20)
+
+
+C10_PARTIAL_COEFFICIENTS = {
+    'midnight_curves::ff_ext::quadratic::QuadExtField::conjugate': 'conjugation negates c1 in place and leaves c0 untouched',
+}
+
+
+def r4_all_coefficients(ck, w, rule='C10.R4'):
+    """componentwise operations of the tower fields look at every coefficient"""
+    import re
+    from ..core import norm
+    ck.rule(rule, 'tower construction: a method of the generic extension fields (QuadExtField c0 + c1 u, CubicExtField c0 + c1 v + c2 v^2, and their serde mirrors) '
+                  'that reads or builds one coefficient reads or builds all of them (is_zero, ct_eq, conditional_select, neg, add, double, random, encodings, ...). '
+                  'A predicate or operation that forgets a coefficient mis-handles every element that differs from another one only there '
+                  '(is_zero ignoring c2 calls the invertible (0, 0, c2) zero).  Legitimately partial methods are tabled.')
+    comp = {}
+    for a in w.adts():
+        if a['kind'] != 'Struct':
+            continue
+        fs = [fd['name'] for fd in a['variants'][0]['fields']]
+        nid = norm(a['id'])
+        if nid.startswith('midnight_curves::') and len(fs) >= 2 and all(re.fullmatch(r'c\d', x) for x in fs):
+            comp[nid] = set(fs)
+    n = 0
+    for f in w.all_fns(['curves']):
+        if '::tests' in f['_nid']:
+            continue
+        selfty = (f.get('impl') or {}).get('self', '')
+        base = norm(selfty.split('<')[0]) if selfty else ''
+        if base not in comp:
+            continue
+        read = set()
+        for x in walk(f['body']):
+            if x.get('k') == 'field' and re.fullmatch(r'c\d', x.get('n', '')):
+                read.add(x['n'])
+            if x.get('k') == 'struct':
+                read |= {fl[0] for fl in x.get('fs', []) if re.fullmatch(r'c\d', fl[0])}
+        if not read:
+            continue
+        n += 1
+        missing = sorted(comp[base] - read)
+        tab = C10_PARTIAL_COEFFICIENTS.get(f['_xid']) or C10_PARTIAL_COEFFICIENTS.get(f['_nid'])
+        if missing and tab:
+            ck.ok(rule, f'{f["_xid"]}:all-coefficients', 'tabled: ' + tab, hirq.fn_loc(f))
+        else:
+            ck.record(rule, f'{f["_xid"]}:all-coefficients', not missing, f'touches {sorted(read)}',
+                      f'{f["_xid"]} touches the coefficients {sorted(read)} but never {missing}: elements that differ only in {missing} are treated alike', hirq.fn_loc(f))
+    ck.floor(rule, 'coefficient-wise methods', n, 30)
 
 
 def mentions_modulus(n):
